@@ -55,15 +55,15 @@ ConnSeq == <<"c1", "c2">>
 Snap(st) == [ctx |-> [j \in 1..2 |-> <<st.s[ConnSeq[j]].sc, st.s[ConnSeq[j]].sc>>],        \* <<conn.schema, CURRENT_SCHEMA()>>
              var |-> [j \in 1..2 |-> st.s[ConnSeq[j]].var],
              vis |-> [j \in 1..2 |-> <<Sorted(Visible(st, ConnSeq[j], "S1")), Sorted(Visible(st, ConnSeq[j], "S2"))>>],
-             \* where U exists: <<by information_schema.tables, by the engine's own catalog>> as each connection sees it
-             cat |-> [j \in 1..2 |-> <<SortedNames(VisibleU(st, ConnSeq[j])), SortedNames(VisibleU(st, ConnSeq[j]))>>]]
+             \* where U exists: <<by information_schema.tables, by the engine's own catalog, by querying it>> as each connection sees it
+             cat |-> [j \in 1..2 |-> LET n == SortedNames(VisibleU(st, ConnSeq[j])) IN <<n, n, n>>]]
 Obs(res, st) == [res |-> res, got |-> <<>>, snap |-> Snap(st)]
 ObsGot(res, got, st) == [res |-> res, got |-> got, snap |-> Snap(st)]
 
 \* ---- single statements: Apply(st, c, a) = [post, r]  (r: the statement's own outcome) ----
 Target(st, c, a) == IF a.tgt = "u" THEN st.s[c].sc ELSE a.tgt                  \* an unqualified T is the current schema's
 Value(st, c, a) == IF a.src = "var" THEN st.s[c].var ELSE a.v
-IsErrR(r) == r \in {"err:novar", "err:missing", "err:exists"}
+IsErrR(r) == r \in {"err:novar", "err:missing", "err:exists", "err:other"}
 
 \* the table t as connection c sees it becomes V: at once outside a transaction, as pending work inside one (nobody else
 \* writes meanwhile - see the header - so the committed contents are what they were at BEGIN)
@@ -142,6 +142,13 @@ Steps(st, op, D) ==
          ELSE LET a2 == Apply(a1.post, op.c, op.items[2]) IN
               IF IsErrR(a2.r) THEN {R(a2.post, Obs(<<a2.r>>, a2.post))}
               ELSE {R(a2.post, Obs(<<a1.r, a2.r>>, a2.post))}
+    \* a statement rejected for its shape (VALUES rows of different lengths): HOW it is reported is C07's business (as built
+    \* the engine's own exception comes through), that it changes nothing - an open transaction included - is stated here
+    \* executemany whose FIRST parameter set does not fit the statement: the call fails and nothing is written, whether the sets
+    \* are executed one by one (the fake) or built into one multi-row INSERT first (the real connector over HTTP); and no
+    \* transaction is opened or closed behind the caller's back (what is written afterwards is seen by the other session at once)
+    [] op.k = "emfail" -> {R(st, Obs(<<"err:other">>, st))}
+    [] op.k = "fail" /\ op.why = "ragged" -> {R(st, Obs(<<"err:missing">>, st)), R(st, Obs(<<"err:other">>, st))}
     [] OTHER ->
          LET a == Apply(st, op.c, op) IN {R(a.post, Obs(<<a.r>>, a.post))}
 
@@ -165,9 +172,10 @@ Simple(st, c) ==
                  a.v # a.w /\ a.w \notin Visible(st, c, Target(st, c, a))}                \* (T stays a set of values)
            \cup {a \in [k : {"ins2"}, tgt : TgtUsed] : OwnVals(c) \cap Visible(st, c, Target(st, c, a)) = {}}
            \cup [k : {"delall"}, tgt : TgtUsed]
+           \cup [k : {"emfail"}, tgt : TgtUsed]
         ELSE {})
   \cup (IF "ddl" \in Feat /\ MayWrite(st, c) THEN [k : {"mk", "rm"}, soft : BOOLEAN, tgt : TgtUsed] ELSE {})
-  \cup [k : {"fail"}, why : {"notable", "nocol", "nosch"}]
+  \cup [k : {"fail"}, why : {"notable", "nocol", "nosch", "arity", "ragged"}]
   \cup [k : {"nop", "descr"}]
 
 \* statements of a script: unqualified DML only (the qualified forms are covered as single statements)
@@ -229,7 +237,7 @@ StepOk(st, op, r) ==
                         /\ r.post = [st EXCEPT !.s[op.c].rows = y.rows])
   \* C07: a failing single statement changes nothing at all; C16 no-op / C06 description: neither
   /\ (op.k # "script" /\ IsErr(r) => r.post = st)
-  /\ (op.k \in {"nop", "descr", "fail"} => r.post = st)
+  /\ (op.k \in {"nop", "descr", "fail", "emfail"} => r.post = st)
   \* a transaction stays open across everything but COMMIT / ROLLBACK
   /\ (x.tx /\ op.k \notin {"commit", "rollback"} => y.tx)
 =============================================================================
